@@ -484,9 +484,8 @@ func (fd *Client) Query(input *dynamodb.QueryInput) (*dynamodb.QueryOutput, erro
 		return nil, awserr.New("ValidationException", err.Error(), nil)
 	}
 
-	if input.ScanIndexForward == nil {
-		input.ScanIndexForward = aws.Bool(true)
-	}
+	// ascending order is the default; the request structure belongs to the caller and is not written to
+	scanIndexForward := input.ScanIndexForward == nil || aws.BoolValue(input.ScanIndexForward)
 
 	items, lastKey := table.SearchData(core.QueryInput{
 		Index:                     indexName,
@@ -496,7 +495,7 @@ func (fd *Client) Query(input *dynamodb.QueryInput) (*dynamodb.QueryOutput, erro
 		ExclusiveStartKey:         mapAttributeValueToTypes(input.ExclusiveStartKey),
 		KeyConditionExpression:    *input.KeyConditionExpression,
 		FilterExpression:          aws.StringValue(input.FilterExpression),
-		ScanIndexForward:          aws.BoolValue(input.ScanIndexForward),
+		ScanIndexForward:          scanIndexForward,
 	})
 
 	count := int64(len(items))
